@@ -310,12 +310,12 @@ VARIANTS = {
            '-sum(CC) * self._n[-1] * self._ua[-1]')),
         M('operand-wrong-accessor',
           (O + 'optimization/operand/aberration.py',
-           'return optic.aberrations.AC()[surface_number]',
-           'return optic.aberrations.TAC()[surface_number]')),
+           'return optic.aberrations.AC()[surface_number - 1]',
+           'return optic.aberrations.TAC()[surface_number - 1]')),
         M('operand-index-shift',
           (O + 'optimization/operand/aberration.py',
-           'return optic.aberrations.DC()[surface_number]',
-           'return optic.aberrations.DC()[surface_number - 1]')),
+           'return optic.aberrations.DC()[surface_number - 1]',
+           'return optic.aberrations.DC()[surface_number]')),
         M('hp-wrong-index',
           (AB, 'self._hp = self._inv / (self._n[-1] * self._ua[-1])',
            'self._hp = self._inv / (self._n[-1] * self._ua[-2])')),
@@ -442,8 +442,9 @@ VARIANTS = {
           (AN + 'spot_diagram.py', 'wave_data[1] -= centroids[i][1]',
            'wave_data[1] -= centroids[i][0]')),
         M('rms-radius-no-sqrt',
-          (AN + 'spot_diagram.py', 'rms_field.append(np.sqrt(np.mean(r2)))',
-           'rms_field.append(np.mean(r2))')),
+          (AN + 'spot_diagram.py',
+           'rms_field.append(np.sqrt(np.mean(r2[wave_data[2] > 0])))',
+           'rms_field.append(np.mean(r2[wave_data[2] > 0]))')),
         M('rayfan-wrong-axis',
           (AN + 'ray_fan.py',
            "data[f'{field}'][f'{wavelength}']['y'] = \\\n                    "
@@ -1118,4 +1119,50 @@ _RT2 = {'C01': [('mutant',
             'p0 = np.cross(k0, s)\n        p1 = np.cross(k1, s)',
             'p0 = -np.cross(s, k0)\n        p1 = -np.cross(s, k1)')])]}
 for _p, _l in _RT2.items():
+    VARIANTS.setdefault(_p, []).extend(_l)
+
+# round 5: fixes 98e9194 (sampler state), 2937265 (Newton convergence mask)
+_RT3 = {
+    'C15': [
+        M('rt3-sampler-global-seed',
+          (TOL + 'perturbation.py',
+           'self._rng = np.random.RandomState(seed)',
+           'np.random.seed(seed)\n            self._rng = np.random')),
+        M('rt3-sampler-global-draw',
+          (TOL + 'perturbation.py',
+           'return self._rng.normal(**self.params)',
+           'return np.random.normal(**self.params)')),
+        M('rt3-sampler-wrong-dist',
+          (TOL + 'perturbation.py',
+           'return self._rng.uniform(**self.params)',
+           'return self._rng.normal(**self.params)')),
+        M('rt3-sampler-seed-truthy',
+          (TOL + 'perturbation.py',
+           '        if seed is not None:\n            self._rng',
+           '        if seed:\n            self._rng')),
+        T('rt3-T-sampler-default-rng-name',
+          (TOL + 'perturbation.py',
+           'self._rng = np.random.RandomState(seed)',
+           'self._rng = np.random.RandomState(seed=seed)')),
+    ],
+    'C02': [
+        M('rt3-newton-no-mask',
+          (NR, 'return np.where(converged, t, np.nan)', 'return t')),
+        M('rt3-newton-mask-inverted',
+          (NR, 'return np.where(converged, t, np.nan)',
+           'return np.where(converged, np.nan, t)')),
+        M('rt3-newton-mask-stale-residual',
+          (NR, 'converged = np.abs(residual) < self.tol',
+           'converged = np.abs(residual) < np.inf')),
+        T('rt3-T-newton-mask-store',
+          (NR, 'return np.where(converged, t, np.nan)',
+           't[~converged] = np.nan\n        return t')),
+        T('rt3-T-newton-mask-gt',
+          (NR, 'converged = np.abs(residual) < self.tol\n'
+               '        return np.where(converged, t, np.nan)',
+           'lost = np.abs(residual) >= self.tol\n'
+           '        return np.where(lost, np.nan, t)')),
+    ],
+}
+for _p, _l in _RT3.items():
     VARIANTS.setdefault(_p, []).extend(_l)
